@@ -115,6 +115,12 @@ class EOS(Parser):
         return 'EOS()'
 
 
+def _isdigit(c):
+    # str.isdigit() also accepts characters such as superscript two, which
+    # int() then rejects with ValueError.
+    return c.isascii() and c.isdigit()
+
+
 class Digit(Parser):
     def __init__(self, n=1):
         self.n = n
@@ -123,7 +129,7 @@ class Digit(Parser):
         out = ''
         for i in range(self.n):
             c = stream.peek()
-            if not c.isdigit():
+            if not _isdigit(c):
                 stream.error('<digit>')
             out += stream.take()
         output.append(int(out))
@@ -147,10 +153,10 @@ class Number(Parser):
 
     def __call__(self, stream, output):
         out = stream.peek()
-        if not out.isdigit():
+        if not _isdigit(out):
             stream.error('<number>')
         stream.take()
-        while stream.peek().isdigit():
+        while _isdigit(stream.peek()):
             out += stream.take()
         output.append(int(out))
 
